@@ -24,6 +24,8 @@ pub enum Form {
   RefPath,      // /// <reference path="x" />
   RefTypes,     // /// <reference types="x" />
   TsTypes(String), // // @ts-types="y"  +  import * as a from "x";
+  DenoTypes(String), // // @deno-types="y"  +  import * as a from "x";   (the older pragma)
+  DenoTypesBare(String), // // @deno-types=y  +  import * as a from "x";  (no quotes)
   SelfTypes,    // // @ts-self-types="x"             (untyped sources only)
   JsDoc,        // /** @type {import("x").T} */      (untyped sources only)
   With(String), // import a from "x" with { type: "..." };
@@ -199,6 +201,18 @@ pub fn render(ext: &str, items: &[Item], broken: &Broken) -> Vec<u8> {
       Form::TsTypes(t) => body.push_str(&format!(
         "// @ts-types={}\nimport * as tt{} from {};\n",
         q(t),
+        n,
+        q(&it.text)
+      )),
+      Form::DenoTypes(t) => body.push_str(&format!(
+        "// @deno-types={}\nimport * as dt{} from {};\n",
+        q(t),
+        n,
+        q(&it.text)
+      )),
+      Form::DenoTypesBare(t) => body.push_str(&format!(
+        "// @deno-types={}\nimport * as db{} from {};\n",
+        t,
         n,
         q(&it.text)
       )),
